@@ -17,6 +17,10 @@ KAPPA_MAX = 1e4
 HOSTILE_SCALE = False
 HOSTILE_MEAN = False
 HOSTILE_SPECIAL = False
+# builders add live peer objects (same class and shapes, other parameters, used first): process-
+# level and class-level state shared between objects only shows then. Not a value regime: calm()
+# leaves it alone.
+LIVE_PEERS = False
 EXTREME_SCALES = (1e-6, 1e-4, 1e4, 1e6)
 
 
